@@ -27,6 +27,31 @@ def drivers_for(fields):
     return ds
 
 
+def run_config(tier, fields, cfg, features=None, rustflags="", defer=DEFER, only=None, timeout=None):
+    """C01 obligation set for one build configuration (also used by C18)"""
+    built = build(drivers_for(fields), tag="C01-" + cfg, features=features, rustflags=rustflags)
+    items = [(f, op) for f in fields for op in f.ops if (f.tag, op) not in defer or only]
+    timeout = timeout or (100 if tier == "quick" else 900)
+
+    def work(it):
+        f, op = it
+        return check_op(built, f, op, tier, timeout=timeout, cfg=cfg)
+    res = pmap(work, items, nproc=NCPU, timeout=max(1800, timeout * 4))
+    obs = []
+    merr = None
+    for (f, op), (st, val) in zip(items, res):
+        if st == "ok":
+            obs.extend(val)
+        else:
+            o = Obligation("%s:%s.%s:value" % (cfg, f.tag, op), "L")
+            o.unknown("%s: %s" % (st, str(val)[:300]))
+            obs.append(o)
+            if "MachineryError" in str(val):
+                merr = str(val)[:500]
+    built.close()
+    return obs, merr
+
+
 def run(tier, only=None):
     t0 = time.time()
     fields = [f for f in F.FIELDS if tier == "thorough" or f.tag in QUICK]
